@@ -214,7 +214,7 @@ func (noDeps) FindDependencies(fsys iofs.FS, subPath string, deps *sourcebundle.
 	return nil
 }
 
-var historyOps = []string{"pack-negation-first", "pack-many-rules", "pack-unreadable-rules", "pack-other-tree-links", "unpack", "bundle", "pack-same"}
+var historyOps = []string{"pack-dot-elsewhere", "pack-dot-elsewhere", "pack-negation-first", "pack-many-rules", "pack-unreadable-rules", "pack-other-tree-links", "unpack", "bundle", "pack-same"}
 
 func runHistoryOp(op, r string, i int, p *slug.Packer) {
 	defer func() { recover() }()
@@ -224,6 +224,15 @@ func runHistoryOp(op, r string, i int, p *slug.Packer) {
 		fsx.Materialise(dir, fsx.Tree{{Path: ".terraformignore", Kind: "file", Content: "!keep.txt\n*.txt\n!/sub/\n"},
 			{Path: "keep.txt", Kind: "file", Content: "k"}, {Path: "x.txt", Kind: "file", Content: "x"}, {Path: ".git/config", Kind: "file", Content: "g"}}, nil)
 		p.Pack(dir, &bytes.Buffer{})
+	case "pack-dot-elsewhere":
+		// the same spelling "." from another working directory, with other rules
+		fsx.Materialise(dir, fsx.Tree{{Path: ".terraformignore", Kind: "file", Content: "*\n!keep\n"},
+			{Path: "keep", Kind: "file", Content: "k"}, {Path: "a", Kind: "file", Content: "x"}, {Path: "l", Kind: "symlink", Target: "a"}}, nil)
+		old, _ := os.Getwd()
+		if os.Chdir(dir) == nil {
+			p.Pack(".", &bytes.Buffer{})
+			os.Chdir(old)
+		}
 	case "pack-many-rules":
 		fsx.Materialise(dir, fsx.Tree{{Path: ".terraformignore", Kind: "file", Content: strings.Repeat("a*\n!ab\n/c/\n", 12)},
 			{Path: "ab", Kind: "file", Content: "k"}, {Path: "c/d", Kind: "file", Content: "x"}}, nil)
@@ -279,9 +288,22 @@ func checkHistory(c Case) error {
 	var buf bytes.Buffer
 	var panicked any
 	var gerrv error
+	arg := src
+	for _, op := range c.History {
+		if op == "pack-dot-elsewhere" {
+			arg = "." // same spelling as in the history, now from inside the tree under test
+		}
+	}
 	func() {
 		defer func() { panicked = recover() }()
-		_, gerrv = p.Pack(src, &buf)
+		if arg == "." {
+			old, _ := os.Getwd()
+			if err := os.Chdir(src); err != nil {
+				panic("harness-chdir")
+			}
+			defer os.Chdir(old)
+		}
+		_, gerrv = p.Pack(arg, &buf)
 	}()
 	got, gerr := decodeOrErr(buf.Bytes(), gerrv, panicked)
 	if gerr != berr {
